@@ -226,6 +226,76 @@ class Opener:
         finally:
             self.fam = ''
 
+    def time_travel(self, with_idx, without_idx, stop, label):
+        """FileStorage(path, read_only=True, stop=tid): "data will be
+        read up to the given transaction id" -- with a saved index beside
+        the file exactly as without one."""
+        from ZODB.FileStorage import FileStorage
+        obs = []
+        for snap in (without_idx, with_idx):
+            fs = self.fs_from(snap)
+            self.evals += 1
+            self.bump('time-travel-open')
+            before = fs.image()
+            try:
+                ro = FileStorage(PATH, read_only=True, stop=stop)
+            except Exception as e:      # noqa: B902
+                self.flag('time-travel-open-raises', '%s: raised %s: %s'
+                          % (label, type(e).__name__, str(e)[:80]))
+                return
+            try:
+                o = self.observe(ro)
+                o['loads'] = []
+                for oid, _ in o['cur']:
+                    try:
+                        o['loads'].append((oid,) + tuple(ro.load(oid)))
+                    except Exception as e:      # noqa: B902
+                        o['loads'].append((oid, type(e).__name__))
+                obs.append(o)
+            finally:
+                ro.close()
+            if fs.image() != before:
+                self.flag('ro-modified', '%s: a time-travel open changed '
+                          'files' % label)
+        if obs[0] != obs[1]:
+            diff = [k for k in obs[0] if obs[0][k] != obs[1][k]]
+            self.flag('index-changes-state', '%s: with a saved index '
+                      'beside the file %s differ from the open without '
+                      'one (%r vs %r)' % (label, diff, _b(obs[1][diff[0]]),
+                                          _b(obs[0][diff[0]])))
+
+    def read_only_absent(self, snap, label):
+        """A read-only open where there is no data file (an empty place,
+        or the window between the two renames of a pack) may only refuse:
+        it creates and changes nothing."""
+        from ZODB.FileStorage import FileStorage
+        fs = self.fs_from(snap)
+        self.evals += 1
+        self.bump('ro-open-absent')
+        before = fs.image()
+        try:
+            ro = FileStorage(PATH, read_only=True)
+        except Exception:           # noqa: B902 -- any refusal will do
+            pass
+        else:
+            try:
+                n = len(list(ro.iterator()))
+            except Exception:       # noqa: B902
+                n = -1
+            self.flag('ro-open-of-absent-file', '%s: a read-only open '
+                      'without a data file was accepted (and shows %d '
+                      'transactions)' % (label, n))
+            try:
+                ro.close()
+            except Exception:       # noqa: B902
+                pass
+        after = fs.image()
+        if after != before:
+            changed = sorted(set(k for k in set(before) | set(after)
+                                 if before.get(k) != after.get(k)))
+            self.flag('ro-modified', '%s: read-only open without a data '
+                      'file changed %s' % (label, changed))
+
     def _read_only(self, fs, before, label, model, writer):
         from ZODB.FileStorage import FileStorage
         try:
@@ -379,6 +449,20 @@ def run(case):
                                  label + ' final', model, ref)
         # -- read-only on the clean file -------------------------------
         op_.read_only(final, 'clean final', model)
+        # time travel: the state as of a transaction id, with and without
+        # the newest index
+        tt = [t.tid for t in model.txns]
+        if versions and tt:
+            for tid in r.sample(tt, min(2, len(tt))):
+                op_.time_travel(with_index(final, versions[-1]),
+                                with_index(final, None), tid,
+                                'time travel to %r' % tid)
+        gone = with_index(final, None)
+        gone['files'].pop(PATH, None)
+        op_.read_only_absent(gone, 'no data file')
+        gone = with_index(final, versions[-1] if versions else None)
+        gone['files'].pop(PATH, None)
+        op_.read_only_absent(gone, 'no data file, index left')
         op_.read_only(with_index(final, None), 'clean final noindex', model)
         # ... and with unreadable / stale indexes: still nothing modified
         ivs = index_variants(versions, r, 'quick')[1:]
@@ -407,7 +491,10 @@ def run(case):
                     torn = r.randrange(1, len(log[k][3]))
                 img = rep.image(torn=torn, bufsize=case['bufsize'])
                 if PATH not in img.names:
-                    continue        # C08's window, not an index question
+                    # C08's window, not an index question -- but a
+                    # read-only client may come by
+                    op_.read_only_absent(img.snapshot(), 'crash@%d' % k)
+                    continue
                 snap = img.snapshot()
                 label = 'crash@%d%s' % (k, '' if torn is None
                                         else '+%d' % torn)
